@@ -2,6 +2,7 @@ package c02
 
 import (
 	"fmt"
+	"strings"
 
 	apiv1 "k8s.io/api/core/v1"
 	metav1 "k8s.io/apimachinery/pkg/apis/meta/v1"
@@ -233,6 +234,9 @@ func GenRouting(r *rng.R) *scen.Scenario {
 					m.Headers = m.Headers[:1]
 				}
 			}
+			if r.Chance(20, 100) {
+				m.Headers = repeatHeaderName(r, m.Headers, s.Tags)
+			}
 		}
 		if r.Chance(20, 100) {
 			m.QueryParams = append(m.QueryParams, gatewayv1.HTTPQueryParamMatch{
@@ -350,9 +354,18 @@ func GenRouting(r *rng.R) *scen.Scenario {
 		hs := hostnames()
 		pr := []gatewayv1.ParentReference{p.ParentRef(gwNS, "gw", "")}
 		meth := rng.Pick(r, methods)
+		// sometimes EVERY competitor carries the method: then the method level ties and the header count, the query
+		// count, the Route's age and its name must still decide
+		allMethod := r.Chance(40, 100)
+		if allMethod {
+			tag("competition-all-with-method")
+		}
 		mk := func(f func(m *gatewayv1.HTTPRouteMatch)) gatewayv1.HTTPRouteMatch {
 			m := p.PathMatch(ct, cp)
 			f(&m)
+			if allMethod {
+				m.Method = ptr(gatewayv1.HTTPMethod(meth))
+			}
 			return m
 		}
 		kinds := []func(m *gatewayv1.HTTPRouteMatch){
@@ -477,6 +490,33 @@ func splitNN(s string) (string, string) {
 		}
 	}
 	return "", s
+}
+
+// repeatHeaderName appends one or two more entries for the header name of the LAST entry, spelled in another case and
+// with another value: `[{X-Version: v1}, {x-version: v2}]`. The CRD admits it (listMapKey=name is case-sensitive), and
+// Gateway API says that of equivalent (case-insensitive) header names only the FIRST entry counts.
+func repeatHeaderName(r *rng.R, hs []gatewayv1.HTTPHeaderMatch, tags map[string]int) []gatewayv1.HTTPHeaderMatch {
+	if len(hs) == 0 {
+		return hs
+	}
+	first := hs[len(hs)-1]
+	spell := []func(string) string{strings.ToUpper, strings.ToLower, strings.Title}
+	used := map[string]bool{string(first.Name): true}
+	vals := []string{"v1", "v2", "v3"}
+	for i, n := 0, rng.Pick(r, []int{1, 1, 2}); i < n; i++ {
+		name := rng.Pick(r, spell)(string(first.Name))
+		if used[name] {
+			continue
+		}
+		used[name] = true
+		v := rng.Pick(r, vals)
+		if v == first.Value {
+			v = "v3"
+		}
+		hs = append(hs, gatewayv1.HTTPHeaderMatch{Type: ptr(gatewayv1.HeaderMatchExact), Name: gatewayv1.HTTPHeaderName(name), Value: v})
+		tags["header-name-repeated-other-case"]++
+	}
+	return hs
 }
 
 // Generate mixes the shared scen generator (PBackendTLS off: BackendTLSPolicy validity is C16's subject) with
